@@ -1,3 +1,37 @@
-/- C08 — property theorems are added when the printer / reparse model lands; until then this property is not claimed. -/
+import TemplVerif.Model.Norm
+import TemplVerif.Proofs.Norm
+/-
+C08 — formatting never changes what a template renders.
+Proved: two template bodies in the same layout class (Norm.body) generate the SAME statements, hence (C02) render the
+same bytes, return the same error and evaluate the same expressions for all values. Checked on every run, not proved
+(there is no model of the formatter's printer and of the parser): that `templ fmt` keeps every template in its layout
+class (the REAL parser's trees of x and of fmt(x) are compared after Norm), that the formatted file is accepted, and
+that the real generated code of both is the same program modulo positions and gofmt.
+-/
 namespace TemplVerif.Props.C08
+open TemplVerif TemplVerif.Ast TemplVerif.Sem
+
+theorem C08_same_class_same_program (b b' : Nodes) (h : Norm.body b = Norm.body b') :
+    Gen.genTemplate b = Gen.genTemplate b' := by
+  rw [← Proofs.Norm.gen_norm b, ← Proofs.Norm.gen_norm b', h]
+
+theorem C08_same_class_same_rendering (b b' : Nodes) (h : Norm.body b = Norm.body b') (env : Env) :
+    Gen.run b env = Gen.run b' env := by
+  unfold Gen.run
+  rw [C08_same_class_same_program b b' h]
+
+theorem C08_norm_projection (b : Nodes) : Norm.body (Norm.body b) = Norm.body b :=
+  Proofs.Norm.norm_idem b
+
+/-- Non-vacuity: `<p>{ S }⏎<b>x</b></p>` laid out on three lines with indentation whitespace and flags set, and on one
+    line: same class, so same program. -/
+example :
+    let multi : Nodes := .cons (.ws [10, 9]) (.cons (.element [112] .nil
+        (.cons (.ws [10, 9, 9]) (.cons (.strExpr [83] .vert) (.cons (.ws [9, 9]) (.cons (.element [98] .nil (.cons (.text [120] .none) .nil) .vert false false)
+          (.cons (.ws [9]) .nil))))) .vert false true) (.cons (.ws [10]) .nil))
+    let single : Nodes := .cons (.element [112] .nil
+        (.cons (.strExpr [83] .horiz) (.cons (.element [98] .nil (.cons (.text [120] .none) .nil) .none false false) .nil)) .none false false) .nil
+    Norm.body multi = Norm.body single ∧ Norm.body multi = single := by
+  decide
+
 end TemplVerif.Props.C08
